@@ -20,6 +20,21 @@ def cstringChunkLoop (data : Bytes) (chunk : Nat) : Nat → Nat → Bytes → R 
 def parseCStringFromStream (data : Bytes) (pos : Nat) (chunk : Nat := 64) : R (Option Bytes) :=
   cstringChunkLoop data chunk (data.length - pos + 2) pos []
 
+/-- `BytesIO.seek(pos)` / `read(n)` convert their argument to a C `Py_ssize_t`:
+    values ≥ 2^63 raise OverflowError -/
+def seekCheck (pos : Nat) : R Unit :=
+  if pos ≥ 2 ^ 63 then .error .overflowError else .ok ()
+
+/-- `struct_parse(struct, stream, stream_pos=pos)` including the seek -/
+def structParseAt (env : Env) (c : Con) (data : Bytes) (pos : Nat) : R (Val × Nat) := do
+  seekCheck pos
+  structParse env c data pos
+
+/-- `parse_cstring_from_stream(stream, stream_pos=pos)` including the seek -/
+def parseCStringAt (data : Bytes) (pos : Nat) : R (Option Bytes) := do
+  seekCheck pos
+  parseCStringFromStream data pos
+
 /-- `roundup(num, bits)` for natural `num ≥ 1` is what the notes code relies on; the
     generated `Gen.Pure.roundup` is the translation of the Python. -/
 def roundupNat (num bits : Nat) : Nat := (num + 2 ^ bits - 1) / 2 ^ bits * 2 ^ bits
